@@ -400,6 +400,14 @@ class Ctx:
     # ---- finish
     def finish(self):
         self.cov['distinct_nontrivial'] = len(self._nontrivial)
+        # fail closed: a proof-level check whose obligations were not all discharged must not be quiet
+        if self.level == 'proof' and self.cov.get('obligations', 0) != self.cov.get('discharged', 0) \
+                and not self.violations:
+            self.violation('proof-evidence-incomplete',
+                           'only %s of %s theorems were checked (Print Assumptions / build incomplete)'
+                           % (self.cov.get('discharged'), self.cov.get('obligations')),
+                           {'print_assumptions': self.cov.get('print_assumptions'),
+                            'theorems': self.cov.get('theorems')}, found_input=False)
         ev = {
             'property_id': self.pid, 'tier': self.tier, 'seed': self.seed,
             'level': self.level, 'coverage': self.cov,
